@@ -89,7 +89,10 @@ fn dispatch(op: &str, args: &[&str]) -> Option<Resp> {
 
 fn generate(prop: &str, tier: &str, seed: u64, out: &mut util::Out) {
     match prop {
-        "C11" => reledit::generate_c11(tier, seed, out),
+        "C11" => {
+            reledit::generate_c11(tier, seed, out);
+            relc14::generate_c11_extra(tier, seed, out);
+        }
         "C12" => sat::generate_c12(tier, seed, out),
         "C13" => reledit::generate_c13(tier, seed, out),
         "C14" => relc14::generate_c14(tier, seed, out),
